@@ -180,7 +180,8 @@ func (r pathSetRules) Equivalent(aPath, bPath Path) bool {
 				return false
 			}
 
-			eq := aStep.Key.Equals(bStep.Key)
+			// marks on keys play no part in whether two paths are the same
+			eq, _ := aStep.Key.Equals(bStep.Key).Unmark()
 			if !eq.IsKnown() || eq.False() {
 				return false
 			}
